@@ -2,7 +2,8 @@
    Statements only; proofs in proof/P_invariance.v and proof/P_like.v. *)
 From Coq Require Import QArith Reals List Permutation.
 Import ListNotations.
-From TT Require Import Num NumR Tree M_like M_data M_like_data P_like P_invariance.
+From Coq Require Import Relations.
+From TT Require Import Num NumR Tree M_like M_data M_like_data P_like P_invariance P_reroot.
 Open Scope R_scope.
 
 (* children of any node can be swapped *)
@@ -48,10 +49,8 @@ Print Assumptions C02_states_vs_partials_missing.
      sum_s pi_s (Pa u)_s (Pb v)_s  =  sum_x pi_x u_x (Pab v)_x.
    With u = (Pc u1) * (Pd u2) the right-hand side is symmetric in the three subtrees meeting at
    that node, so applying the identity backwards on another pair moves the root onto an adjacent
-   branch.  The induction along a path to ANY branch is not formalised:
-   full statement C02_reroot_any_branch : forall unrooted tree T and edges e e', lik (root T e) = lik (root T e')
-   is established by this step + the symmetric form; here: C02_reroot_one_step (partial). *)
-Theorem C02_reroot_one_step_partial : forall S (pi u v : list R) (Pa Pb Pab : list (list R)),
+   branch.  C02_reroot_any_branch below carries this to every root placement. *)
+Theorem C02_reroot_one_step : forall S (pi u v : list R) (Pa Pb Pab : list (list R)),
   length pi = S -> length u = S -> length v = S ->
   wf_mat S Pa -> wf_mat S Pb -> wf_mat S Pab ->
   (forall s x, (s < S)%nat -> (x < S)%nat -> lk pi s 0 * entry NumR Pa s x = lk pi x 0 * entry NumR Pa x s) ->
@@ -60,7 +59,44 @@ Theorem C02_reroot_one_step_partial : forall S (pi u v : list R) (Pa Pb Pab : li
   ndot NumR pi (vmul NumR (matvec NumR Pa u) (matvec NumR Pb v))
   = ndot NumR pi (vmul NumR u (matvec NumR Pab v)).
 Proof. exact pulley_l. Qed.
-Print Assumptions C02_reroot_one_step_partial.
+Print Assumptions C02_reroot_one_step.
+
+(* EVERY root placement.  [wtree]: a rooted binary tree carrying its tip vectors and, at every internal
+   node, the two child branch lengths; [lik S pi P t] its site likelihood by pruning with the matrices
+   P(length).  [step] = one move of the root: exchange the two root children, slide the root along
+   the root edge (only the SUM of the two root branch lengths is kept), or push it across the node
+   below onto the branch of either grandchild (at any point of that branch).  [reroot] = any number
+   of moves in either direction: these are exactly the ways of rooting one and the same unrooted
+   tree.  For every reversible semigroup family P (hypotheses: S x S matrices, detailed balance,
+   P(a+b) = P(a)P(b) for a, b >= 0 — what C04 proves of the shipped models) all of them have the same
+   likelihood.  Any number of states, any tree, any tip data. *)
+Theorem C02_reroot_any_branch : forall S pi P,
+  length pi = S -> (forall t, wf_mat S (P t)) ->
+  (forall t s x, (s < S)%nat -> (x < S)%nat ->
+     lk pi s 0 * entry NumR (P t) s x = lk pi x 0 * entry NumR (P t) x s) ->
+  (forall a b, 0 <= a -> 0 <= b -> forall x y, (x < S)%nat -> (y < S)%nat ->
+     entry NumR (P (a + b)) x y = rsum (map (fun s => entry NumR (P a) x s * entry NumR (P b) s y) (seq 0 S))) ->
+  forall t t', reroot S t t' -> lik pi P t = lik pi P t'.
+Proof. exact reroot_lik. Qed.
+Print Assumptions C02_reroot_any_branch.
+
+(* ... in particular the root moved down ANY path of the tree (left / right at each node) *)
+Theorem C02_reroot_along_any_path : forall S pi P,
+  length pi = S -> (forall t, wf_mat S (P t)) ->
+  (forall t s x, (s < S)%nat -> (x < S)%nat ->
+     lk pi s 0 * entry NumR (P t) s x = lk pi x 0 * entry NumR (P t) x s) ->
+  (forall a b, 0 <= a -> 0 <= b -> forall x y, (x < S)%nat -> (y < S)%nat ->
+     entry NumR (P (a + b)) x y = rsum (map (fun s => entry NumR (P a) x s * entry NumR (P b) s y) (seq 0 S))) ->
+  forall path t t', wfw S t -> descend path t = Some t' -> lik pi P t = lik pi P t'.
+Proof. exact descend_lik. Qed.
+Print Assumptions C02_reroot_along_any_path.
+
+(* non-vacuity of the moves: a 4-tip tree, the root pushed to the branch above its left-left grandchild *)
+Example C02_example_reroot :
+  descend [true]
+    (WN (WN (WL [1; 0]) (WL [0; 1]) 1 2) (WN (WL [1; 1]) (WL [0; 1]) 3 4) 5 6)
+  = Some (WN (WL [1; 0]) (WN (WL [0; 1]) (WN (WL [1; 1]) (WL [0; 1]) 3 4) 2 (5 + 6)) 1 0).
+Proof. reflexivity. Qed.
 
 (* non-vacuity: two named sequences listed in either order give the same rows *)
 Example C02_example :
